@@ -76,6 +76,7 @@ void h_send_query(void)
   g_tmo_ok = nondet_bool(); g_ll_ok = nondet_bool(); g_conn.total_queries = nondet_size() >> 1;
   now.sec = nondet_i64(); now.usec = nondet_uint(); __CPROVER_assume(now.sec >= 0 && now.sec < (1LL << 40) && now.usec < 1000000);
   g_ended = g_requeued = g_incfail = g_connerr = g_probed = g_order = g_tmo_destroyed = g_ll_destroyed = g_timeadd = 0; g_fetch_server = NULL;
+  g_wakeups = 0; g_new_is_earliest = nondet_bool(); g_write_wakes = nondet_bool(); ch.optmask = nondet_uint(); g_conn.flags = (ares_conn_flags_t)(nondet_uint() & 7u);
   g_cb_may_cancel = nondet_bool(); g_query_released = 0; g_sending = &q; q.qid = nondet_u16();
   size_t tq0 = g_conn.total_queries;
   ares_status_t rv = ares_send_query(have_req ? &g_req : NULL, &q, &now);
@@ -100,6 +101,7 @@ void h_send_query(void)
   __CPROVER_assert(q.conn == &g_conn && g_conn.total_queries == tq0 + 1, "C10: the query is charged to the connection that carries it");
   __CPROVER_assert(q.node_queries_by_timeout == (ares_slist_node_t *)&tok_tmo && q.node_queries_to_conn == (ares_llist_node_t *)&tok_conn, "C07: a sent query is in the timeout index and on its connection");
   __CPROVER_assert(g_timeadd == 1 && q.ts.sec == now.sec && q.ts.usec == now.usec, "C07: the deadline is now + the timeout computed for the chosen server");
+  if ((ch.optmask & ARES_OPT_EVENT_THREAD) && g_new_is_earliest) __CPROVER_assert(g_wakeups > 0, "C07: the event thread is woken when a sent query becomes the earliest deadline (it computed its sleep before this deadline existed; a query reusing an idle connection changes no socket interest)");
   __CPROVER_assert((g_probed == 1) == (!have_req && want->consec_failures == 0 && q.try_count == 0), "C09: failed servers are probed only alongside a fresh, undirected attempt on a healthy server");
 }
 #ifdef T_CONNERR
